@@ -71,6 +71,9 @@ func (r *Recorder) blocksJSON(s *Scenario, blocks []BlockRec) []line {
 		if b.Seal != nil {
 			seal = valsJSON(s.NextVals(b.Epoch))
 			r.Stats["seals"]++
+			if len(out) > 0 {
+				r.Stats["seals_inside_a_cascade"]++ // the sealing block is not the first block decided by this call
+			}
 		}
 		out = append(out, line{"atr": s.idOf(b.Atropos), "fr": int(b.Frame), "ch": ch, "evs": evs, "seal": seal})
 		r.Stats["blocks"]++
